@@ -42,19 +42,21 @@ LEAK_OK_MIRI = "-Zmiri-ignore-leaks"
 ASAN_NOLEAK = "halt_on_error=1:abort_on_error=0:detect_leaks=0:exitcode=99:allocator_may_return_null=1"
 
 PLANS = {
-    "C01": [job("modelrun", "native", 2, [], budget={"quick": 400000, "thorough": 8000000}), hist("big", 1, 40000, 300000), hist("realloc", 1, 480000, 3000000), hist("bound", 10, 480000, 7500000), hist("evict", 2, 480000, 4500000), hist("extreme", 2, 320000, 3000000),
+    "C01": [job("inject", "native", 4, [], budget={"quick": 20000, "thorough": 500000}, budget_arg="cases"), job("modelrun", "native", 2, [], budget={"quick": 400000, "thorough": 8000000}), hist("big", 1, 40000, 300000), hist("realloc", 1, 480000, 3000000), hist("bound", 10, 480000, 7500000), hist("evict", 2, 480000, 4500000), hist("extreme", 2, 320000, 3000000),
             hist("extreme", 2, 320000, 3000000, mode="wrap"), job("realheap", "native", 2, [], budget={"quick": 300000, "thorough": 5000000})],
     "C02": [job("modelrun", "native", 2, [], budget={"quick": 400000, "thorough": 8000000}), job("typevar", "native", 1, ["--layouts", "400"]), hist("big", 1, 40000, 300000), hist("realloc", 1, 480000, 3000000), hist("bound", 8, 480000, 7500000), hist("mutate", 3, 480000, 4500000), hist("ledger", 1, 480000, 3000000), hist("extreme", 2, 320000, 3000000),
             hist("extreme", 2, 320000, 3000000, mode="wrap"), job("realheap", "native", 2, [], budget={"quick": 400000, "thorough": 6000000})],
     "C03": [job("modelrun", "native", 2, [], budget={"quick": 400000, "thorough": 8000000}), hist("big", 1, 40000, 300000), hist("realloc", 1, 480000, 3000000), hist("evict", 14, 480000, 9000000), hist("mixed", 2, 480000, 4500000)],
     "C04": [job("aliaskeys", "native", 2, [], budget={"quick": 400000, "thorough": 8000000}), job("bigcap", "native", 1, [], budget={"quick": 2000, "thorough": 100000}, budget_arg="max-n"), hist("big", 1, 40000, 300000), hist("map", 12, 480000, 9000000), hist("realloc", 2, 480000, 4500000), hist("mixed", 2, 480000, 4500000)],
-    "C05": [job("modelrun", "native", 2, [], budget={"quick": 400000, "thorough": 8000000}), hist("big", 1, 40000, 300000), job("interleave", "native", 4, [], budget={"quick": 300000, "thorough": 5000000}), hist("order", 12, 480000, 9000000), hist("realloc", 2, 480000, 4500000), hist("mixed", 2, 480000, 4500000)],
+    "C05": [job("inject", "native", 4, [], budget={"quick": 20000, "thorough": 500000}, budget_arg="cases"), job("modelrun", "native", 2, [], budget={"quick": 400000, "thorough": 8000000}), hist("big", 1, 40000, 300000), job("interleave", "native", 4, [], budget={"quick": 300000, "thorough": 5000000}), hist("order", 12, 480000, 9000000), hist("realloc", 2, 480000, 4500000), hist("mixed", 2, 480000, 4500000)],
     "C06": [job("typevar", "native", 2, [], budget={"quick": 1500000, "thorough": 30000000}), job("typevar", "asan", 1, [], budget={"quick": 300000, "thorough": 5000000}, reports_to=MEM),
             job("typevar", "miri", 2, [], budget={"quick": 60, "thorough": 1500}, reports_to=MEM), hist("big", 1, 40000, 300000), hist("realloc", 1, 480000, 3000000), hist("ledger", 10, 480000, 6000000), hist("mixed", 2, 480000, 3000000),
             hist("ledger", 8, 100000, 2000000, mode="asan", reports_to=MEM),
             hist("ledger", 16, 300, 4000, mode="miri", reports_to=MEM, extra=["--bare", "1"]),
             enum_iter("native", 4, 5, False, tiers=("quick",)), enum_iter("native", 8, 8, False, tiers=("thorough",))],
-    "C07": [job("interleave", "native", 4, [], budget={"quick": 300000, "thorough": 5000000}), job("interleave", "asan", 2, [], budget={"quick": 60000, "thorough": 1500000}, reports_to=MEM), hist("realloc", 10, 480000, 6000000), hist("map", 2, 480000, 3000000),
+    "C07": [job("modelrun", "asan", 2, [], budget={"quick": 100000, "thorough": 2000000}, reports_to=MEM), job("modelrun", "miri", 4, [], budget={"quick": 150, "thorough": 2500}, reports_to=MEM),
+            job("aliaskeys", "asan", 1, [], budget={"quick": 100000, "thorough": 2000000}, reports_to=MEM), job("aliaskeys", "miri", 2, [], budget={"quick": 150, "thorough": 2500}, reports_to=MEM),
+            job("interleave", "native", 4, [], budget={"quick": 300000, "thorough": 5000000}), job("interleave", "asan", 2, [], budget={"quick": 60000, "thorough": 1500000}, reports_to=MEM), hist("realloc", 10, 480000, 6000000), hist("map", 2, 480000, 3000000),
             hist("realloc", 10, 100000, 2000000, mode="asan", reports_to=MEM), hist("big", 2, 20000, 120000, mode="asan", reports_to=MEM), hist("big", 2, 50000, 600000),
             hist("realloc", 16, 300, 4000, mode="miri", reports_to=MEM, extra=["--bare", "1"])],
     "C12": [enum_iter("native", 12, 7, False, random=400, tiers=("quick",)), enum_iter("native", 16, 10, False, random=5000, tiers=("thorough",)),
@@ -88,7 +90,7 @@ PLANS = {
             job("memsize_total", "native", 18, ["--case", "{shard}", "--thread", "small"], budget={"quick": 1000000, "thorough": 10000000}, budget_arg="n", verdict="exit", prop="C08", bin="lruverif_tot")],
     "C09": [msjob("memsize", "debug0", 12, [], budget={"quick": 5000, "thorough": 200000}, budget_arg="rounds")],
     "C10": [job("modelrun", "native", 2, [], budget={"quick": 400000, "thorough": 8000000}), job("typevar", "native", 1, ["--layouts", "400"]), hist("big", 1, 40000, 300000), hist("realloc", 1, 480000, 3000000), hist("insert", 14, 480000, 9000000), hist("mixed", 2, 480000, 4500000)],
-    "C11": [job("modelrun", "native", 2, [], budget={"quick": 400000, "thorough": 8000000}), hist("big", 1, 40000, 300000), hist("realloc", 1, 480000, 3000000), hist("mutate", 14, 480000, 9000000), hist("mixed", 2, 480000, 4500000)],
+    "C11": [job("inject", "native", 4, [], budget={"quick": 20000, "thorough": 500000}, budget_arg="cases"), job("realheap", "native", 1, [], budget={"quick": 300000, "thorough": 5000000}), job("modelrun", "native", 2, [], budget={"quick": 400000, "thorough": 8000000}), hist("big", 1, 40000, 300000), hist("realloc", 1, 480000, 3000000), hist("mutate", 14, 480000, 9000000), hist("mixed", 2, 480000, 4500000)],
 }
 
 LEVELS = {p: "exploration" for p in ["C01", "C02", "C03", "C04", "C05", "C06", "C07", "C08", "C09", "C10", "C11", "C12", "C14", "C15", "C19", "C20"]}
@@ -96,11 +98,11 @@ LEVELS.update({"C13": "fault_enumeration", "C16": "fault_enumeration", "C17": "f
 
 # Non-vacuity floors: if the monitors did not see the situations the property is about, the run is inconclusive.
 FLOORS = {
-    "C01": {"evaluations": {"quick": 300000, "thorough": 10000000}, "distinct": 300, "exact_fit": 500, "one_over": 200, "grow_the_lru": 50, "limit_cur_minus_1": 50, "limit_zero": 50, "limit_max": 50},
+    "C01": {"c01_bound_checked_after_caught_panic": 50000, "evaluations": {"quick": 300000, "thorough": 10000000}, "distinct": 300, "exact_fit": 500, "one_over": 200, "grow_the_lru": 50, "limit_cur_minus_1": 50, "limit_zero": 50, "limit_max": 50},
     "C02": {"sum:model_ops_": 200000, "evaluations": {"quick": 300000, "thorough": 10000000}, "distinct": 100, "replacements": 1000, "reallocations": 1000, "sum:c11_class0": 200, "sum:c11_class2": 200, "sum:c11_class3": 100, "sum:c11_class4": 100, "c02_realheap_events": 500000, "c02_layout_events": 20000},
     "C03": {"evaluations": {"quick": 300000, "thorough": 10000000}, "distinct": 200, "multi_evictions": 50, "replace_then_evict": 20, "grow_the_lru": 20, "exact_fit_evicts_nothing": 20},
     "C04": {"evaluations": {"quick": 300000, "thorough": 10000000}, "distinct": 300, "each:lookup_": 50, "reallocations": 1000, "max:const_hasher_max_len": 20, "c04_alias_lookups": 100000, "c04_alias_prefix_of_stored_key_that_is_absent": 20000},
-    "C05": {"evaluations": {"quick": 300000, "thorough": 10000000}, "distinct": 100, "each:promote_": 5, "order_checked_after_realloc_len10": 100, "debug_compared": 100},
+    "C05": {"c05_order_checked_after_caught_panic": 50000, "evaluations": {"quick": 300000, "thorough": 10000000}, "distinct": 100, "each:promote_": 5, "order_checked_after_realloc_len10": 100, "debug_compared": 100},
     "C06": {"evaluations": {"quick": 300000, "thorough": 10000000}, "distinct": 100, "c12_dropped_after_prefix": 500, "each:c06_typevar_": 500},
     "C07": {"evaluations": {"quick": 300000, "thorough": 10000000}, "distinct": 300, "reallocations": {"quick": 10000, "thorough": 300000}, "max:max_len": {"quick": 100, "thorough": 1000}},
     "C12": {"evaluations": {"quick": 20000, "thorough": 200000}, "distinct": 5000, "c12_past_exhaustion": 1000, "c12_dropped_after_prefix": 1000},
@@ -108,16 +110,16 @@ FLOORS = {
     "C14": {"evaluations": {"quick": 100000, "thorough": 3000000}, "distinct": 100, "c14_ops_with_sibling_caches": 50000},
     "C15": {"evaluations": {"quick": 2000, "thorough": 20000}, "distinct": 60},
     "C16": {"evaluations": {"quick": 200000, "thorough": 5000000}, "distinct": 1000, "each:c16_fired_": 20, "c16_hash_panic_in_explicit_rebuild": 1000, "c16_hash_panic_in_growing_insert": 300,
-            "c16_further_use_ops": 100000, "c16_dropped_after": 100000, "c16_big_state_injections": 40},
+            "c16_further_use_ops": 100000, "c16_dropped_after": 100000, "c16_big_state_injections": 40, "c16_allocation_refused_inside_infallible_rebuild": 2000, "c16_callback_panic_with_allocation_refusal_armed": 2000, "c16_remutate_after_panicked_mutate": 5000},
     "C17": {"evaluations": {"quick": 10000, "thorough": 100000}, "distinct": 2000, "sum:c17_forgot_": 2000, "c17_forgot_drain": 300, "c17_further_use_ops": 2000, "c17_caches_dropped_after_forget": 1000},
-    "C18": {"evaluations": 128, "distinct": 128, "c18_table_rows": 64, "c18_rows_expected_send": 8, "c18_rows_expected_not_send": 56, "c18_moved_across_threads": 20, "c18_nonstatic_exercise_runs": 1},
+    "C18": {"evaluations": 128, "distinct": 128, "c18_table_rows": 64, "c18_rows_expected_send": 8, "c18_rows_expected_not_send": 56, "c18_moved_across_threads": 20, "c18_nonstatic_exercise_runs": 1, "c18_iterator_autotrait_rows": 112},
     "C19": {"evaluations": {"quick": 5000, "thorough": 80000}, "distinct": 100, "c19_shared_ops_under_write_trap": 500000, "c19_thread_runs_under_write_trap": 10000, "c19_state_empty": 50, "c19_state_single": 50,
             "c19_state_tombstoned": 50, "c19_state_const_hasher": 200, "c19_thread_runs_race_detector": 20, "max:c19_max_len": 30, "c19_deep_states": 50, "max:c19_deep_state_max_colliding_len": 4000},
     "C20": {"evaluations": {"quick": 300000, "thorough": 10000000}, "distinct": 150, "c20_rebuilds": 2000, "c20_with_departures": 5000, "c20_scale_ops_n16384": 5000, "c20_scale_ops_n1024": 5000, "c20_scale_rebuilds": 500, "c20_scale_mass_ejections": 1000, "max:c20_scale_mass_ejection_max_departures": 10000},
     "C08": {"evaluations": {"quick": 500000, "thorough": 20000000}, "distinct": 3000, "c08_bulk_shapes_checked": 100000, "c08_totality_cases_debug0": 36, "c08_totality_cases_native": 18, "c08_measured_while_locked_elsewhere": 10, "c08_values_with_user_defined_leaves": 10000},
     "C09": {"evaluations": {"quick": 100000, "thorough": 4000000}, "distinct": 400, "c09_exact_values": 80000, "c09_bounded_values": 5000, "c09_values_holding_memory": 50000},
     "C10": {"sum:model_ops_": 200000, "evaluations": {"quick": 100000, "thorough": 3000000}, "distinct": 40, "each:c10_": 100},
-    "C11": {"sum:model_ops_": 200000, "evaluations": {"quick": 100000, "thorough": 3000000}, "distinct": 30, "each:c11_class": 10},
+    "C11": {"sum:model_ops_": 200000, "c11_completed_mutate_of_entry_with_stale_record": 2000, "c11_realheap_mutates_in_stale_clone": 1000, "evaluations": {"quick": 100000, "thorough": 3000000}, "distinct": 30, "each:c11_class": 10},
 }
 
 RULES = {
